@@ -19,6 +19,19 @@ def main():
         sys.exit(3)
     if a.replay:
         sys.exit(driver.replay(mod, a.replay))
+    # last line of defence against a hang anywhere (solver worker, battery, kernel): undecided, never a verdict
+    import signal
+    wall = int(os.environ.get("VERIF_WALL_S", "1800" if a.tier == "quick" else "14400"))
+
+    def _too_long(_sig, _frm):
+        print(f"UNDECIDED property={a.prop}: the check did not finish within {wall}s (VERIF_WALL_S); no verdict")
+        sys.stdout.flush()
+        try:
+            os.killpg(os.getpgid(0), signal.SIGTERM) if os.getpgid(0) == os.getpid() else None
+        finally:
+            os._exit(2)
+    signal.signal(signal.SIGALRM, _too_long)
+    signal.alarm(wall)
     try:
         rc = driver.main(mod, a.tier, seed)
     except Exception:
